@@ -120,6 +120,7 @@ impl WorldState {
 
 /// Reference CredentialStore: implements exactly the documented lookup contract
 /// (match by RP ID and, when given, by id list).
+#[derive(Clone)]
 pub struct RefStore {
     pub creds: Vec<Passkey>,
     pub cfg: StoreCfg,
@@ -194,6 +195,7 @@ impl CredentialStore for RefStore {
     }
 }
 
+#[derive(Clone)]
 pub enum AnyBackend {
     Ref(RefStore),
     Memory(MemoryStore),
@@ -247,6 +249,7 @@ impl AnyBackend {
 // ------------------------------------------------------------------ store seam
 
 /// The store seam: fault plan, yields and event log in front of a backing store.
+#[derive(Clone)]
 pub struct Seam {
     pub backend: AnyBackend,
     pub world: Shared,
@@ -268,7 +271,7 @@ impl Seam {
             fault = plan
                 .faults
                 .iter()
-                .find(|f| f.seam == kind && f.nth == n)
+                .find(|f| f.seam == kind && (f.nth == n || (f.sticky && n >= f.nth)))
                 .map(|f| f.status);
         }
         let pre = plan.next_yield();
@@ -645,6 +648,9 @@ pub const RPS: &[Rp] = &[
     Rp { url: Some("http://localhost:4000"), rp_id: Some("localhost"), effective: "localhost", origin: "http://localhost:4000" },
     Rp { url: None, rp_id: Some("example.net"), effective: "example.net", origin: "android:apk-key-hash:" },
     Rp { url: Some("https://example.org"), rp_id: Some("example.org"), effective: "example.org", origin: "https://example.org" },
+    // internationalised hosts: the origin a relying party configures is the ASCII serialisation
+    Rp { url: Some("https://xn--bcher-kva.example"), rp_id: Some("xn--bcher-kva.example"), effective: "xn--bcher-kva.example", origin: "https://xn--bcher-kva.example" },
+    Rp { url: Some("https://www.b\u{fc}cher.example:8443"), rp_id: None, effective: "www.xn--bcher-kva.example", origin: "https://www.xn--bcher-kva.example:8443" },
 ];
 
 /// The origin string a relying party expects in clientDataJSON for this directory entry.
@@ -935,10 +941,15 @@ fn resolve_id(r: &IdRef, creds: &[ModelCred], rp: &str) -> Vec<u8> {
     }
 }
 
-fn descriptors(ids: &[Vec<u8>]) -> Vec<PublicKeyCredentialDescriptor> {
+fn descriptors(ids: &[Vec<u8>], unknown_type: &[bool]) -> Vec<PublicKeyCredentialDescriptor> {
     ids.iter()
-        .map(|id| PublicKeyCredentialDescriptor {
-            ty: PublicKeyCredentialType::PublicKey,
+        .enumerate()
+        .map(|(i, id)| PublicKeyCredentialDescriptor {
+            ty: if unknown_type.get(i).copied().unwrap_or(false) {
+                PublicKeyCredentialType::Unknown
+            } else {
+                PublicKeyCredentialType::PublicKey
+            },
             id: id.clone().into(),
             transports: None,
         })
@@ -1105,7 +1116,7 @@ async fn run_op(
                     challenge: s.challenge.clone().into(),
                     pub_key_cred_params: alg_params(&s.algs),
                     timeout: None,
-                    exclude_credentials: exclude.as_ref().map(|l| descriptors(l)),
+                    exclude_credentials: exclude.as_ref().map(|l| descriptors(l, &op.unknown_type)),
                     authenticator_selection: s.sel.as_ref().map(|sel| {
                         webauthn::AuthenticatorSelectionCriteria {
                             authenticator_attachment: None,
@@ -1192,7 +1203,7 @@ async fn run_op(
                     challenge: s.challenge.clone().into(),
                     timeout: None,
                     rp_id: rp.rp_id.map(str::to_owned),
-                    allow_credentials: allow.as_ref().map(|l| descriptors(l)),
+                    allow_credentials: allow.as_ref().map(|l| descriptors(l, &op.unknown_type)),
                     user_verification: uv_req(s.uv),
                     hints: None,
                     attestation: Default::default(),
@@ -1266,7 +1277,7 @@ async fn run_op(
                     name: "n".into(),
                 },
                 pub_key_cred_params: alg_params(&s.algs),
-                exclude_list: exclude.as_ref().map(|l| descriptors(l)),
+                exclude_list: exclude.as_ref().map(|l| descriptors(l, &op.unknown_type)),
                 extensions,
                 options: ctap2::make_credential::Options { rk: s.rk, up: s.up, uv: s.uv },
                 pin_auth: s.pin_auth.then(|| vec![1u8; 16].into()),
@@ -1309,7 +1320,7 @@ async fn run_op(
             let request = ctap2::get_assertion::Request {
                 rp_id: s.rp_id.clone(),
                 client_data_hash: s.cdh.clone().into(),
-                allow_list: allow.as_ref().map(|l| descriptors(l)),
+                allow_list: allow.as_ref().map(|l| descriptors(l, &op.unknown_type)),
                 extensions,
                 options: ctap2::get_assertion::Options { rk: s.rk, up: s.up, uv: s.uv },
                 pin_auth: s.pin_auth.then(|| vec![1u8; 16].into()),
